@@ -237,6 +237,18 @@ def run(ctx, rep):
                 nxt = [tt for bj, tt in wr.calls() if strip_generics(callee_name(tt)).endswith("write_partitions") and bj in wr.reachable(t["to"])]
                 rmax = sorted({tt["f"]["args"][0] for tt in nxt})
                 pairs.append((meth, rmax))
+        # or the method is handed to write_partitions, which writes it in 2 bits itself
+        for bi, t in wr.calls():
+            if strip_generics(callee_name(t)).endswith("write_partitions") and len(t["a"]) >= 3:
+                wpb = F.body(t["f"].get("res") or "") or (F.one("encode::write_residuals::write_partitions") or [None])[0]
+                if wpb is None:
+                    continue
+                for k, a in enumerate(t["a"]):
+                    if op_int(a) is None:
+                        continue
+                    writes_it = any((terminal(tt) or [None])[0] == "write" and terminal(tt)[1][:2] == ["2", "u8"] and (k + 1) in backward_slice(wpb, tt["a"][1])["args"] for _, tt in wpb.calls())
+                    if writes_it:
+                        pairs.append((op_int(a), [t["f"]["args"][0]]))
         want = sorted([(0, [str(spec["coding_method"]["codes"]["0"])]), (1, [str(spec["coding_method"]["codes"]["1"])])])
         got = sorted(set((m, tuple(r)) for m, r in pairs))
         okp = all((m == 0 and r == ("15",)) or (m == 1 and r == ("31",)) for m, r in got) and {m for m, r in got} == {0, 1}
